@@ -459,7 +459,12 @@ func l7(n int) [][]dump.File {
 		{scale.GroupingChain(n, false)}, {scale.GroupingChain(n, true)}, scale.Includes(n, false), scale.Includes(n, true), scale.ManyGroupings(n),
 		{{Name: "t.yang", Text: scale.Nested(n, false)}}, {{Name: "t.yang", Text: "module m { namespace \"urn:m\"; prefix m; " + strings.Repeat("container c {", n) + strings.Repeat("}", n) + " }"}}}
 	if n <= 257 {
-		out = append(out, scale.Wide(n), scale.Imports(n))
+		la, _ := scale.LongArgs(n)
+		out = append(out, scale.Wide(n), scale.Imports(n), scale.ManyUses(n), scale.ManyAugments(n), scale.ManyDeviations(n), scale.ManyModuleIdentities(n),
+			[]dump.File{scale.Counts(n)}, []dump.File{scale.ManyLeaves(n)}, []dump.File{la})
+	}
+	if la, _ := scale.LongArgs(8 * n); n > 257 {
+		out = append(out, []dump.File{la})
 	}
 	return out
 }
@@ -488,7 +493,7 @@ func shards(tier string) []string {
 }
 
 func run(c *core.Ctx) {
-	c.Res.Bound = "L1/L2: the shared lexical spaces; L3: statement trees of <= 3 statements over 81 keywords (6 argument forms for <= 2 statements) at top level and under module/submodule headers; L4: 1-2 (thorough 3) files from a pool of self-, cross-, dangling and wrong-kind references x include/import links, both load orders; L6: 23 type bases x every ordered pair of 148 restriction statements with limit, wrap-around and malformed arguments (fraction-digits, range, length, enum value, bit position, pattern, path, base, require-instance, nested type) in a leaf, in a typedef and in a typedef narrowed twice; L7: 16 scale shapes (deep, wide, long chains open and cyclic, many imports / includes / groupings) at every size to 64 and around the powers of two to 512; L5: every single-statement edit (delete, duplicate, drop argument, each of 81 keywords, 9 arguments, hoist, self-nest) of 14 seed files"
+	c.Res.Bound = "L1/L2: the shared lexical spaces; L3: statement trees of <= 3 statements over 81 keywords (6 argument forms for <= 2 statements) at top level and under module/submodule headers; L4: 1-2 (thorough 3) files from a pool of self-, cross-, dangling and wrong-kind references x include/import links, both load orders; L6: 23 type bases x every ordered pair of 148 restriction statements with limit, wrap-around and malformed arguments (fraction-digits, range, length, enum value, bit position, pattern, path, base, require-instance, nested type) in a leaf, in a typedef and in a typedef narrowed twice; L7: 25 scale shapes (deep, wide, long chains open and cyclic, many imports / includes / groupings / uses / augments / deviations / leaves / identities over many modules, large counts of patterns, union members, bases, defaults, keys, musts, revisions, long arguments) at every size to 64 and around the powers of two to 512; L5: every single-statement edit (delete, duplicate, drop argument, each of 81 keywords, 9 arguments, hoist, self-nest) of 14 seed files"
 	n := 0
 	emit := func(in Input) {
 		caseNo, ok := c.Begin()
